@@ -9,10 +9,11 @@ Local Open Scope N_scope.
    a call made while the current sample is [now] asks for a sample index (time truncated) > now *)
 Definition later_than (now : N) (r : request) : Prop := now < when (to_task r).
 
-Definition respects_future (beh : behaviour) : Prop :=
-  forall c now r, In r (beh c now) -> later_than now r.
-Definition dsp_respects_future (dspb : dsp_behaviour) : Prop :=
-  forall now r, In r (dspb now) -> later_than now r.
+(* (only samples before the horizon [H] matter: the theorems about T samples use H = T) *)
+Definition respects_future (H : N) (beh : behaviour) : Prop :=
+  forall c now r, now < H -> In r (beh c now) -> later_than now r.
+Definition dsp_respects_future (H : N) (dspb : dsp_behaviour) : Prop :=
+  forall now r, now < H -> In r (dspb now) -> later_than now r.
 (* global scope runs before sample 0; both runtimes start with current time 0 *)
 Definition init_respects_future (init : list request) : Prop :=
   forall r, In r init -> later_than 0 r.
